@@ -52,6 +52,8 @@ def build(c):
     nl = Netlist({"Modules": mods, "Nets": nets})
     die = Die(D.die_tree(dc), nl)
     ref = c["refine"]
+    if not die.floorplanning_rectangles()[0]:
+        raise NoRefinableRegion()  # blockages and fixed modules cover the whole die: nothing to floorplan on (outside the domain)
     if ref[0] == "split":
         die.split_refinable_regions(float(ref[1]), int(ref[2]))
     else:
@@ -59,10 +61,16 @@ def build(c):
     return die
 
 
+class NoRefinableRegion(Exception):
+    pass
+
+
 def run_glb(c):
     from tools.glbfloor.optimization import glbfloor
     try:
         die = build(c)
+    except NoRefinableRegion:
+        return dict(nt=False, cls=["die-without-refinable-region"])
     except Exception as e:
         raise RuntimeError("generator produced a rejected design: %s: %s\n%s" % (type(e).__name__, e, c))
     nl = die.netlist
@@ -243,7 +251,10 @@ def run_extract(c):
     """extract_solution on a synthetic solution: hard modules translated (and mirrored when flippable)"""
     from frame.allocation.allocation import create_initial_allocation
     from tools.glbfloor.optimization import extract_solution
-    die = build(c)
+    try:
+        die = build(c)
+    except NoRefinableRegion:
+        return dict(nt=False, cls=["die-without-refinable-region"])
     nl = die.netlist
     try:
         alloc0 = create_initial_allocation(die)
